@@ -376,6 +376,20 @@ def oracle_c07x(c, a, b):
 
 
 oracle_c07x.waived = set()
+_oracle_c03_scripts = _script_oracle(("C03", "C08", "C09"))
+
+
+def oracle_c03x(c, a, b):
+    """C03 on `iter` lines; on `script` lines (cursor walks mixing the two step functions) the script oracle"""
+    if c.startswith("script "):
+        r = _oracle_c03_scripts(c, a, b)
+        oracle_c03x.waived = _oracle_c03_scripts.waived
+        return r
+    oracle_c03x.waived = set()
+    return oracle_c03(c, a, b)
+
+
+oracle_c03x.waived = set()
 oracle_c09 = _script_oracle(("C09", "C13"))
 oracle_c10 = _script_oracle(("C10",))
 oracle_c11 = _script_oracle(("C11", "C08", "C09"), walk=True)
@@ -657,8 +671,8 @@ PROPS = {
         "theorems": ["Dns.C03.accepted_layout", "Dns.C03.walks_faithful", "Dns.C03.no_opt_outside_additional", "Dns.C03.question_walk",
                      "Dns.C03.accessors", "Dns.C03.ip_accessor", "Dns.C03.data_accessor", "Dns.C03.layout_full",
                      "Dns.C03.edns_walk", "Dns.C03.current_section"],
-        "families": [{"name": "iter-boundary", "quick": 0, "thorough": 0, "fixed": True}, {"name": "iter", "quick": 3000, "thorough": 150000}, {"name": "iter-damaged", "quick": 3000, "thorough": 100000}],
-        "oracle": oracle_c03,
+        "families": [{"name": "script-mixed-steps", "quick": 0, "thorough": 0, "fixed": True}, {"name": "iter-boundary", "quick": 0, "thorough": 0, "fixed": True}, {"name": "iter", "quick": 3000, "thorough": 150000}, {"name": "iter-damaged", "quick": 3000, "thorough": 100000}],
+        "oracle": oracle_c03x,
         "nontrivial": nontrivial_accepted,
         "rule": "accepted packets from the structured stream (all record shapes, 4 layouts incl. chained pointers and pointers into rdata names, OPT absent/first/middle/last); "
                 "each case runs the six walks and every accessor on every record; non-trivial = distinct accepted packets",
@@ -729,7 +743,7 @@ PROPS = {
     },
     "C09": {
         "module": "DnsModel.Theorems.C09", "theorems": ["Dns.C09.insert_exact_answer", "Dns.C09.insert_exact_authority", "Dns.C09.insert_exact_additional", "Dns.C09.delete_exact", "Dns.C09.set_ttl_exact", "Dns.C09.set_ip_exact", "Dns.C09.set_name_exact", "Dns.C09.header_exact", "Dns.C09.first_touch", "Dns.C09.set_name_flagged", "Dns.C09.delete_flagged", "Dns.PlainObj.replace_at", "Dns.resize_write", "Dns.piece_shape"],
-        "families": [{"name": "script-boundary", "quick": 0, "thorough": 0, "fixed": True}, {"name": "script", "quick": 2500, "thorough": 100000}],
+        "families": [{"name": "script-boundary", "quick": 0, "thorough": 0, "fixed": True}, {"name": "script-refusals", "quick": 0, "thorough": 0, "fixed": True}, {"name": "script", "quick": 2500, "thorough": 100000}],
         "oracle": oracle_c09, "nontrivial": nontrivial_script, "shrink": False,
         "rule": "same scripts as C08; after every operation the decoded message is compared with the message before plus exactly the specified change",
         "level": "proof",
